@@ -501,6 +501,8 @@ class Executor:
             return len(v.d) > 0
         if isinstance(v, (PObj, SRef, Func, ReMatch, Builtin, ClassRef)):
             return True
+        if isinstance(v, Custom):
+            return v.truth(self)
         if isinstance(v, SFloat):
             raise Unsupported("truth of float")
         if v is None or isinstance(v, (bool, int, str, tuple, float, bytes)):
@@ -1522,7 +1524,12 @@ class Executor:
         if isinstance(obj, SOpt):
             return self.get_attr(self.unopt(obj, line, "receiver"), name, line)
         if isinstance(obj, ClassRef):
-            return self.ctx.class_attr(obj.name, name, self, static=True)
+            r = self.ctx.class_attr(obj.name, name, self, static=True)
+            if isinstance(r, Func) and any(ast.unparse(d) == "classmethod" for d in r.node.decorator_list):
+                return _BoundFunc(r, obj)
+            if r is NotImplemented:
+                raise Unsupported(f"class attribute {obj.name}.{name} at L{line}")
+            return r
         if isinstance(obj, _Module):
             return obj.attr(name, self)
         if isinstance(obj, VExc) and name == "args":
@@ -1645,6 +1652,8 @@ class Executor:
             return self.dict_lookup_sym(d, idx, line)
         if isinstance(obj, _SDictLike):
             return obj.getitem(self, idx, line)
+        if isinstance(obj, Custom):
+            return obj.getitem(self, idx, line)
         if isinstance(obj, _Sliceable):
             return obj.index(self, idx, line)
         if isinstance(obj, PObj):
@@ -1717,6 +1726,13 @@ class Executor:
         from . import grid as G
         if isinstance(obj, G.GRID_TYPES):
             return G.del_item(self, obj, sl, env, line)
+        if isinstance(obj, Custom) and isinstance(sl, ast.Slice) and sl.step is None:
+            lo = None if sl.lower is None else self.eval(sl.lower, env)
+            hi = None if sl.upper is None else self.eval(sl.upper, env)
+            return obj.delslice(self, lo, hi, line)
+        if isinstance(obj, PList) and isinstance(sl, ast.Slice) and sl.lower is None and sl.upper is None:
+            obj.items.clear()
+            return
         raise Unsupported("del item")
 
     def e_Yield(self, e, env):
@@ -2301,6 +2317,29 @@ class _Module:
         if name in self.attrs:
             return self.attrs[name]
         raise Unsupported(f"{self.name}.{name}")
+
+
+class Custom:
+    """Contract-provided ghost view of a container (abstract state + the operations the code may use).
+    Any other operation is UNSUPPORTED."""
+
+    def truth(self, ex):
+        raise Unsupported(f"truth of {type(self).__name__}")
+
+    def length(self, ex):
+        raise Unsupported(f"len of {type(self).__name__}")
+
+    def getitem(self, ex, idx, line):
+        raise Unsupported(f"subscript of {type(self).__name__}")
+
+    def method(self, ex, name, args, kwargs, line):
+        raise Unsupported(f"{type(self).__name__}.{name}")
+
+    def delslice(self, ex, lo, hi, line):
+        raise Unsupported(f"del on {type(self).__name__}")
+
+    def join(self, ex, sep, line):
+        raise Unsupported(f"join of {type(self).__name__}")
 
 
 class _SDictLike:
